@@ -1,0 +1,73 @@
+//go:build verif
+
+package tx_pool
+
+import (
+	"time"
+
+	"github.com/kardiachain/go-kardia/lib/common"
+	"github.com/kardiachain/go-kardia/types"
+)
+
+// Add-only wrappers for the out-of-tree verification harness (/verif/harness/pool, property C17).
+// They expose the two critical sections of the pool (the locked part of a submission and one run of
+// the reorganisation) so that a driver can place them in a chosen order, and the two pieces of
+// internal state a black-box observer cannot reach (lookup flag, heartbeat age).
+
+// VerifAddLocked is the critical section of AddRemotes/AddLocals: pool.mu.Lock, addTxsLocked, Unlock.
+// It returns the per-transaction errors and the accounts for which a promotion run is now owed.
+func (pool *TxPool) VerifAddLocked(txs []*types.Transaction, local bool) ([]error, []common.Address) {
+	pool.mu.Lock()
+	errs, dirty := pool.addTxsLocked(txs, local)
+	pool.mu.Unlock()
+	return errs, dirty.flatten()
+}
+
+// VerifRunReorg performs one run of runReorg on the calling goroutine (the reorg loop must be idle):
+// with reset it is the run scheduled by a chain head event (reset to the chain's current block, as
+// VerifReset does), and dirty are the accounts whose promotion is owed.
+func (pool *TxPool) VerifRunReorg(reset bool, dirty []common.Address) {
+	var req *txpoolResetRequest
+	if reset {
+		req = &txpoolResetRequest{nil, nil}
+	}
+	var set *accountSet
+	if dirty != nil {
+		set = newAccountSet(pool.signer, dirty...)
+	}
+	pool.runReorg(make(chan struct{}), req, set, make(map[common.Address]*txSortedMap))
+}
+
+// VerifLookup reports whether the lookup holds the transaction and under which flag.
+func (pool *TxPool) VerifLookup(hash common.Hash) (found bool, local bool) {
+	if pool.all.GetLocal(hash) != nil {
+		return true, true
+	}
+	return pool.all.GetRemote(hash) != nil, false
+}
+
+// VerifAge moves the last heartbeat of the given accounts to the zero time, i.e. lets more than any
+// Lifetime pass for them (accounts without a heartbeat are left alone).
+func (pool *TxPool) VerifAge(addrs []common.Address) {
+	pool.mu.Lock()
+	defer pool.mu.Unlock()
+	for _, a := range addrs {
+		if _, ok := pool.beats[a]; ok {
+			pool.beats[a] = time.Time{}
+		}
+	}
+}
+
+// VerifSetEvictionInterval sets the period of the eviction ticker for pools created afterwards and
+// returns the previous value.
+func VerifSetEvictionInterval(d time.Duration) time.Duration {
+	old := evictionInterval
+	evictionInterval = d
+	return old
+}
+
+// VerifBarrier returns when the reorg loop has finished every run requested so far: it requests one
+// more run for an empty account set (which only repeats the truncation) and waits for it.
+func (pool *TxPool) VerifBarrier() {
+	<-pool.requestPromoteExecutables(newAccountSet(pool.signer))
+}
